@@ -195,12 +195,16 @@ contract(
     target=f"{M}::remove_value",
     params={"source": Ref("NixSourceCode"), "npath": Str},
     returns=Str,
-    externals=dict(_EDIT_EXT, **{"rebuilt.rstrip": External(returns=Str)}),
+    externals=dict(_EDIT_EXT, **{"rebuilt.rstrip": External(returns=Str),
+                                 # the unscoped call (no layer list to preserve)
+                                 "_remove_value_in_attrset#1": External(returns=NoneT, params=["target_set", "npath"], modifies=["*"],
+                                                                        exsures={"ValueError": [], "KeyError": []})}),
     modifies=["*"],
     call_asserts={
         "_resolve_target_set": ["len(source.expressions) == 1"],
         "_resolve_npath": ["len(source.expressions) == 1"],
-        "_remove_value_in_attrset": ["depth >= 1 and depth <= len(layers)", "layer_index == len(layers) - depth",
+        "_remove_value_in_attrset#1": ["target_set is resolution.target_set and npath == caller_npath"],
+        "_remove_value_in_attrset#0": ["depth >= 1 and depth <= len(layers)", "layer_index == len(layers) - depth",
                                      "target_set.values is layers[len(layers) - depth].scope",
                                      "target_set.attrpath_order is layers[len(layers) - depth].attrpath_order"],
         # pruning removes exactly the layer that was addressed, and only when it became empty
@@ -378,4 +382,161 @@ contract(
     ],
     domain=False,
     props=EDIT_PROPS,
+)
+
+# ---------------------------------------------------------------------------------------------
+# attrpath families inside explicitly written nested sets (`m = { x.y = 1; };`): the walk down to the set that holds the rest of
+# the path in attrpath form (added by the fix for `set m.x.z` / `rm m.x.y`, which used to succeed without changing the text)
+contract(
+    target=f"{M}::_find_attrpath_family",
+    params={"target_set": Ref("AttributeSet"), "segments": ArrOf("str")},
+    returns=Opt(Tup(Ref("AttributeSet"), Ref("Binding"), ArrOf("str"))),
+    entry_closure=True,
+    modifies=[],
+    ensures=[
+        "heap_unchanged()",
+        # the set handed back is one of the document, its family root is the first nested binding called like the first remaining segment
+        "implies(result is not None, result[0] is not None and result[0] < alloc_at_entry() and len(result[2]) >= 1)",
+        "implies(result is not None, result[1] is not None and result[1] is first_binding(result[0].values, result[2][0], True))",
+        # the remaining path is a suffix of the path that was asked for
+        "implies(result is not None, len(result[2]) <= len(segments) and "
+        "all(result[2][j] == segments[len(segments) - len(result[2]) + j] for j in range(len(result[2]))))",
+    ],
+    loops={0: Loop(invariant=["isinstance(current, AttributeSet) and current < alloc_at_entry()"])},
+    domain=False,
+    props=EDIT_PROPS + ["C14"],
+)
+
+_FAMILY_EXT = External(
+    returns=Opt(Tup(Ref("AttributeSet"), Ref("Binding"), ArrOf("str"))), params=["target_set", "segments"],
+    ensures=["heap_unchanged()",
+             "implies(result is not None, result[0] is not None and len(result[2]) >= 1 and len(result[2]) <= len(segments))",
+             "implies(result is not None, result[1] is not None and result[1] is first_binding(result[0].values, result[2][0], True))",
+             # representation invariant of the AttributeSet handed back (assumed for every set of the document)
+             "implies(result is not None, result[0].values is not result[0].attrpath_order and distinct_elems(result[0].values) and "
+             "distinct_elems(result[0].attrpath_order))"],
+    note="proved separately (contract _find_attrpath_family); used through its postcondition because the tuple mixes references and a sequence")
+
+# ---------------------------------------------------------------------------------------------
+# the dispatcher of `rm` inside one attribute set: which of the three removal routes is taken is decided from two lookups, and
+# nothing is written before the route that was chosen writes (C08: a refused removal leaves the document as it was; C05: a
+# path is refused only because a key is missing, not because of the form it was written in).
+contract(
+    target=f"{M}::_find_attrpath_leaf",
+    params={"target_set": Ref("AttributeSet"), "segments": ArrOf("str")},
+    returns=Opt(Ref("Binding")),
+    entry_closure=True,
+    modifies=[],
+    ensures=[
+        "heap_unchanged()",
+        "implies(len(segments) < 2, result is None)",
+        # a binding of the document (not a copy)
+        "implies(result is not None, result < alloc_at_entry())",
+        # the leaf of the family: a binding with a value of its own, called like the last segment
+        "implies(result is not None, not result.nested and result.name == segments[len(segments) - 1])",
+    ],
+    domain=False,
+    props=EDIT_PROPS + ["C14"],
+)
+
+contract(
+    target=f"{M}::_remove_value_in_attrset",
+    params={"target_set": Ref("AttributeSet"), "npath": Str},
+    returns=NoneT,
+    entry_closure=True,
+    # representation invariant of AttributeSet (two different lists, no object twice in either)
+    requires=["target_set.values is not target_set.attrpath_order", "distinct_elems(target_set.values)",
+              "distinct_elems(target_set.attrpath_order)"],
+    modifies=["*"],
+    externals={
+        "_format_npath_segments": External(returns=ArrOf("str"), params=["npath"], exsures={"ValueError": []},
+                                           note="proved separately for its text (C12); here only: a pure function of the path"),
+        "_resolve_npath_parent": External(returns=Tup(Ref("AttributeSet"), Str), params=["target_set", "npath", "create_missing"],
+                                          ensures=["heap_unchanged()", "result[0] is not None",
+                                                   # representation invariant of the AttributeSet handed back (assumed for every set of the document)
+                                                   "result[0].values is not result[0].attrpath_order", "distinct_elems(result[0].values)",
+                                                   "distinct_elems(result[0].attrpath_order)"],
+                                          exsures={"ValueError": ["heap_unchanged()"], "KeyError": ["heap_unchanged()"]},
+                                          note="with create_missing=False the walk only reads (assumed; covered by the bounded stand-in of C08)"),
+        "_find_attrpath_family": _FAMILY_EXT,
+    },
+    call_asserts={
+        # route 1: the full path is written in attrpath form
+        "_remove_attrpath_value#0": ["attrpath_leaf is not None", "target_set is caller_target_set and segments == caller_segments"],
+        # route 2: a plain key of this set - never a root that exists only through `root.x = ...` members
+        "del target_set": ["len(segments) == 1 and key == segments[0]", "attrpath_root is None",
+                           "binding is not None and binding is first_binding(target_set.values, key)"],
+        # route 3: a deeper member of an attrpath family reached through explicit sets
+        "_remove_attrpath_value#1": ["attrpath_leaf is None and attrpath_root is not None and len(segments) >= 2",
+                                     "target_set is caller_target_set and segments == caller_segments"],
+        # route 4: the rest of the path is an attrpath family inside an explicitly written nested set; the root of such a family
+        # has no binding of its own to remove
+        "_remove_attrpath_value#2": ["attrpath_leaf is None and attrpath_root is None and family is not None and len(rest) >= 2",
+                                     "target_set is family_set and segments == rest"],
+        # route 5: explicit nested sets all the way; the parent is looked up without creating anything
+        "_resolve_npath_parent": ["attrpath_leaf is None and attrpath_root is None and family is None and len(segments) >= 2", "not create_missing",
+                                  "target_set is caller_target_set and npath == caller_npath"],
+    },
+    ensures=[],
+    # a removal that is refused for a missing key has not touched the document
+    exsures={"KeyError": ["heap_unchanged()"], "ValueError": []},
+    domain=False,
+    props=EDIT_PROPS + ["C14"],
+)
+
+# ---------------------------------------------------------------------------------------------
+# the dispatcher of `set` inside one attribute set.  Proved on the real code: which route writes is decided by the two attrpath
+# lookups and the path length; a new key is only ever added where no binding of that name exists and the name is not the root of
+# an attrpath family; `set` never removes or reorders anything and, in objects that already existed, writes nothing but the
+# `value` of a binding (lists only grow at their end); every refusal with ValueError leaves the document untouched (C08);
+# no AttributeError / IndexError can escape.  Assumed: the nested closure `_assign_through_identifier` (its effect is the proved
+# contract of Identifier.value's setter: one `value` written, or nothing when the reference does not resolve) and
+# `_resolve_npath_parent` (creates missing sets at the end of `values` lists, touches nothing else, refuses without writing).
+contract(
+    target=f"{M}::_set_value_in_attrset",
+    params={"target_set": Ref("AttributeSet"), "npath": Str, "value_expr": Ref("NixExpression"), "let_bindings": OneOf(NoneT, ListRef("Binding"))},
+    returns=NoneT,
+    entry_closure=True,
+    requires=["target_set.values is not target_set.attrpath_order", "distinct_elems(target_set.values)", "distinct_elems(target_set.attrpath_order)", "value_expr is not None",
+              "implies(let_bindings is not None, all(let_bindings[j] is not None for j in range(len(let_bindings))))"],
+    modifies=["*"],
+    externals={
+        "_format_npath_segments": External(returns=ArrOf("str"), params=["npath"], exsures={"ValueError": []}),
+        "_resolve_npath_parent": External(returns=Tup(Ref("AttributeSet"), Str), params=["target_set", "npath", "create_missing"], modifies=["*"], preserves=["let_bindings[]"],
+                                          ensures=['heap_unchanged("lists-grow")', "result[0] is not None", "result[0].values is not result[0].attrpath_order", "distinct_elems(result[0].values)", "distinct_elems(result[0].attrpath_order)"],
+                                          exsures={"ValueError": ["heap_unchanged()"], "KeyError": ["heap_unchanged()"]}),
+        "_assign_through_identifier": External(returns=Bool, params=["identifier"], modifies=["*"],
+                                               ensures=["implies(not result, heap_unchanged())", 'heap_unchanged("value")'],
+                                               note="nested closure: scopes_for_owner + Identifier.value setter (proved separately: writes one binding's "
+                                                    "`value`, nothing on ResolutionError); set_resolution_context touches the registry only"),
+        "_resolve_inherited_binding": External(returns=Ref("Binding"), params=["target_set"]),
+        "_find_attrpath_family": _FAMILY_EXT,
+        "_segment_name": External(returns=Str, params=["segment"]),
+    },
+    call_asserts={
+        "AttributeSet.__setitem__": ["value is value_expr", "attrpath_leaf is None and attrpath_root is None", "first_binding(self.values, key) is None"],
+        # every direct write stores exactly the given expression, and never into a binding that exists only as the root / an inner
+        # node of an attrpath family (`nested`): those have no value of their own to replace
+        "attrpath_leaf.value =": ["stored is value_expr", "not attrpath_leaf.nested"],
+        "binding.value =": ["stored is value_expr", "not binding.nested", "binding is first_binding(target_set.values, segments[0])"],
+        "existing_binding.value =": ["stored is value_expr", "not existing_binding.nested", "existing_binding is first_binding(parent_set.values, final_key)"],
+        "outer.value =": ["stored is value_expr"],
+        "sibling_binding.value =": ["stored is value_expr"],
+        "inherited_binding.value =": ["stored is value_expr"],
+        "_set_attrpath_value#0": ["attrpath_leaf is None and attrpath_root is not None and len(segments) >= 2",
+                                  "target_set is caller_target_set and root is attrpath_root and segments == caller_segments and value_expr is caller_value_expr"],
+        # the same one level (or more) further down, in the nested set that holds the family
+        "_set_attrpath_value#1": ["attrpath_leaf is None and attrpath_root is None and family is not None and len(rest) >= 2 and family_leaf is None",
+                                  "target_set is family_set and root is family_root and segments == rest and value_expr is caller_value_expr"],
+        "family_leaf.value =": ["stored is value_expr", "not family_leaf.nested"],
+        "_resolve_npath_parent": ["attrpath_leaf is None and attrpath_root is None and family is None and len(segments) >= 2", "create_missing",
+                                  "target_set is caller_target_set and npath == caller_npath"],
+    },
+    loops={0: Loop(invariant=["True"]), 1: Loop(invariant=["True"]), 2: Loop(invariant=["True"])},
+    ensures=['heap_unchanged("value", "lists-grow")'],
+    exsures={"KeyError": [], "ValueError": ["heap_unchanged()"]},
+    domain=False,
+    # (not listed for C09, which claims `proof`: the clause `not existing_binding.nested` is false on the unchanged tree - an attrpath
+    # family inside an explicitly written nested set, `m = { x.y = 1; }; set m.x 5` - and stays undecided; see known findings)
+    props=["C04", "C05", "C08", "C19", "C11"],
 )
